@@ -26,8 +26,9 @@ def check(ctx):
     ctx.assumptions += ["equality of the second run's numbers with the first run's is not decided"]
     annotations(ctx, s)
     kr = KindRun(ctx)
-    file_kind_findings(ctx, kr, "T2-lossless", lambda r, union, mixed, ks: any(WIDTH[k] > WIDTH[r.ret] for k in union),
-                       "no scalar rule returns a kind wider than its declared type (int rule returning 2.5, bool rule returning a number): the converter only accepts a supplied column that fits the declared type without loss")
+    # bool <- int is exempt: `n and cond` returns the int 0, which the converter accepts as False
+    file_kind_findings(ctx, kr, "T2-lossless", lambda r, union, mixed, ks: "float" in union and r.ret in ("int", "bool"),
+                       "no rule declared int or bool can return a float (e.g. an int rule returning 2.5): the converter only accepts a supplied column that fits the declared type without loss, so the system's own output would be rejected (assumes a float-kinded result is not always integral)")
     ctx.floor("T2-lossless", 250)
     merge_and_split(ctx, repo)
     warn(ctx, repo)
